@@ -79,7 +79,7 @@ Theorem abs_update : forall p h ps v j fp n jn,
   end.
 Proof.
   intros p h ps v j fp n jn Hwf Hr ND Hn Hns. unfold setpath.
-  pose proof (update_sound_ok current p eq_refl Hns h ps v j fp n jn Hwf Hr ND Hn) as H.
+  pose proof (update_sound_ok current p eq_refl eq_refl Hns h ps v j fp n jn Hwf Hr ND Hn) as H.
   destruct (Path.update j p jn) as [j'|]; auto.
   destruct H as (h' & ps' & u & fp' & Hu & Hr' & ND' & Hpost).
   exists h', ps', u, fp'. split; auto. split. { intros. eapply orep_abs; eauto. }
